@@ -1004,13 +1004,16 @@ def replay(run, prop, path):
 
 
 def warm(run):
-    """emit (and cache) the transition systems the quick tiers use; they do not depend on /repo"""
+    """emit (and cache) the TLC outputs the quick tiers use; none of them depends on /repo"""
     for inst, extra in (("A3", ()), ("C2", ()), ("D3", ()), ("B3", ()), ("F4a", ()), ("F4b", ()), ("F5", ()),
                         ("A3", ("clone",)), ("A3", ("reload",)), ("C2", ("clone",)), ("C2", ("reload",)),
-                        ("F4a", ("clone",)), ("F4a", ("reload",)), ("F5", ("clone",)), ("F5", ("reload",))):
+                        ("F4a", ("clone",)), ("F4a", ("reload",)), ("F5", ("clone",)), ("F5", ("reload",)),
+                        ("C2", ("slice",)), ("G3", ("slice",)), ("A3", ("inspect",)), ("C2", ("inspect",)), ("G3", ("inspect",)),
+                        ("F4a", ("inspect",)), ("G3", ())):
         vlib.emit_ts(run, emit_module(inst), cfg_emit(inst, extra))
-
-
-def plan_and_finish_single(run, prop):
-    acc = PLANS[prop](run, prop, "quick")
-    return finish(run, prop, "quick", acc, 0.0)
+    vlib.emit_ts(run, "MergeGen", cfg_mergegen(6, [0, 1], [1, 2, 3], 2, 3, 0, True), workers=8)
+    vlib.emit_ts(run, "MergeGen", cfg_mergegen(6, [0, 1], [0, 1, 2, 3], 2, 2, 2, False), workers=8)
+    vlib.emit_ts(run, "ScriptGen", cfg_scriptgen(5, 4, [0, 1], ["x", "y"], ["foo", "b"], ["CA-FE", "00-1A-2B-3C-4D-5E-6F-70-81"]), workers=8)
+    for mode in ("access", "concat"):
+        vlib.emit_ts(run, "HexGen", f"INIT Init\nNEXT Next\nCONSTANTS MaxLen = 11 MaxIdx = 12 Mode = \"{mode}\"\nCHECK_DEADLOCK FALSE\n")
+    vlib.emit_ts(run, "LabelGen", "INIT Init\nNEXT Next\nCONSTANTS Full = 4 LongLo = 5 LongHi = 10\nCHECK_DEADLOCK FALSE\n", timeout=3000)
